@@ -442,8 +442,14 @@ func (s *sys) Step(op int) bfs.StepResult {
 		switch {
 		case c.Op == "CreateTemp" || c.Op == "MkdirTemp":
 			// same directory, same prefix; bring the kernel side to the avfs name
-			if filepath.Dir(rk.Val) != filepath.Dir(rv.Val) {
-				viols = append(viols, bfs.Viol{Sig: sig("kind", "value"), Detail: detail})
+			// ... and the same fixed parts around the random one: the LAST '*' of
+			// the pattern is replaced (digits masked on both sides)
+			if filepath.Dir(rk.Val) != filepath.Dir(rv.Val) || maskDigits(filepath.Base(rk.Val)) != maskDigits(filepath.Base(rv.Val)) {
+				viols = append(viols, bfs.Viol{Sig: sig("kind", "value", "what", "temp-name-shape"), Detail: detail})
+
+				if filepath.Dir(rk.Val) == filepath.Dir(rv.Val) {
+					_ = os.Rename(rk.Val, rv.Val)
+				}
 			} else if rk.Val != rv.Val {
 				_ = os.Rename(rk.Val, rv.Val)
 			}
@@ -479,6 +485,32 @@ func (s *sys) Step(op int) bfs.StepResult {
 		Changed: s.key != keyBefore, Key: s.key, Broken: structural || poisoned, Rebuild: poisoned || (structural && s.key == keyBefore),
 		Outcome: c.Op + "/" + rk.Kind, Viols: viols,
 	}
+}
+
+// maskDigits replaces every maximal run of digits by '#' (the random part of a
+// temporary name is decimal on both sides).
+func maskDigits(s string) string {
+	var b strings.Builder
+
+	run := false
+
+	for _, r := range s {
+		if r >= '0' && r <= '9' {
+			if !run {
+				b.WriteByte('#')
+			}
+
+			run = true
+
+			continue
+		}
+
+		run = false
+
+		b.WriteRune(r)
+	}
+
+	return b.String()
 }
 
 func valueDiff(op, k, v string) string {
@@ -595,6 +627,9 @@ func buildOps(fsName, R, tier string) []fsx.Call {
 			fsx.Call{Op: "ReadFile", A: p},
 			fsx.Call{Op: "CreateTemp", A: p, B: "t*"},
 			fsx.Call{Op: "MkdirTemp", A: p, B: "t*"},
+			// several wildcards: only the last one stands for the random part
+			fsx.Call{Op: "CreateTemp", A: p, B: "t*u*v"},
+			fsx.Call{Op: "MkdirTemp", A: p, B: "*w*"},
 		)
 
 		if fsName == "MemFS" {
@@ -623,7 +658,7 @@ func buildOps(fsName, R, tier string) []fsx.Call {
 	ops = append(ops, fsx.Call{Op: "Rename", A: "a", B: "ab"}, fsx.Call{Op: "Link", A: "a", B: "ab"})
 
 	if fsName == "MemFS" {
-		targets := []string{"a", "ab", "a/a", "../a", ".", "nope", R + "/a", R + "/nope"}
+		targets := []string{"a", "ab", "a/a", "../a", "../ab", ".", "nope", R + "/a", R + "/nope"}
 		for _, t := range targets {
 			for _, q := range paths {
 				ops = append(ops, fsx.Call{Op: "Symlink", A: t, B: q})
